@@ -36,14 +36,16 @@ pub struct JsonStyle {
     pub null_infoset: bool,
     /// whitespace before the first brace (legal JSON)
     pub leading: &'static str,
+    /// numbers in other legal spellings of the same value (exponents, trailing zeros)
+    pub spell: bool,
 }
 
 impl JsonStyle {
     pub fn random(r: &mut Rng) -> Self {
-        JsonStyle { shuffle: r.coin(0.5), pretty: r.coin(0.3), null_infoset: r.coin(0.3), leading: *r.pick(&["", "", "", "\n", "  ", "\t", "\r\n", "\n\n  "]) }
+        JsonStyle { shuffle: r.coin(0.5), pretty: r.coin(0.3), null_infoset: r.coin(0.3), leading: *r.pick(&["", "", "", "\n", "  ", "\t", "\r\n", "\n\n  "]), spell: r.coin(0.3) }
     }
     pub fn plain() -> Self {
-        JsonStyle { shuffle: false, pretty: false, null_infoset: false, leading: "" }
+        JsonStyle { shuffle: false, pretty: false, null_infoset: false, leading: "", spell: false }
     }
 }
 
@@ -54,6 +56,23 @@ fn num(x: f64) -> String {
         dec(m)
     } else {
         format!("{x}")
+    }
+}
+
+/// another JSON spelling of the same short decimal (the choice depends on the value only)
+fn num_s(x: f64, st: &JsonStyle) -> String {
+    let m = milli(x);
+    if !st.spell || (m as f64 / 1000.0 - x).abs() >= 1e-12 || m.unsigned_abs() > 1u128 << 50 {
+        return num(x);
+    }
+    match m.unsigned_abs() % 6 {
+        0 => format!("{m}e-3"),
+        1 => format!("{}e0", dec(m)),
+        2 => format!("{}E-1", dec(m * 10)),
+        3 if m % 1000 == 0 => format!("{}.0", m / 1000),
+        3 => format!("{}0", dec(m)),
+        4 => format!("{}E+0", dec(m)),
+        _ => dec(m),
     }
 }
 
@@ -76,7 +95,7 @@ fn nl(st: &JsonStyle, depth: usize, s: &mut String) {
 fn json_node(n: &MNode, r: &mut Rng, st: &JsonStyle, d: usize, s: &mut String) {
     match n {
         MNode::T(x) => {
-            let _ = write!(s, "{{\"terminal\": {}}}", num(*x));
+            let _ = write!(s, "{{\"terminal\": {}}}", num_s(*x, st));
         }
         MNode::C { info, outs } => {
             s.push_str("{\"chance\": {");
@@ -104,7 +123,7 @@ fn json_node(n: &MNode, r: &mut Rng, st: &JsonStyle, d: usize, s: &mut String) {
                     s.push_str(", ");
                 }
                 nl(st, d + 1, s);
-                let _ = write!(s, "\"{}\": {{\"prob\": {}, \"state\": ", esc(name), num(*w));
+                let _ = write!(s, "\"{}\": {{\"prob\": {}, \"state\": ", esc(name), num_s(*w, st));
                 json_node(c, r, st, d + 1, s);
                 s.push('}');
             }
@@ -160,6 +179,9 @@ pub struct EfgStyle {
     pub one_chance_name: bool,
     /// first chance infoset number (0 is legal and is an infoset like any other)
     pub chance_base: u64,
+    /// numbers in other legal spellings of the same value ("+3", "3.", ".5", "1500e-3",
+    /// "3/2", "1.5E+0", "0001.500")
+    pub spell: bool,
 }
 
 impl EfgStyle {
@@ -192,6 +214,7 @@ impl EfgStyle {
             anonymous_chance_actions: r.coin(0.25),
             one_chance_name: r.coin(0.25),
             chance_base: *r.pick(&[0u64, 0, 1, 1, 7]),
+            spell: r.coin(0.3),
         }
     }
     pub fn plain() -> Self {
@@ -210,6 +233,7 @@ impl EfgStyle {
             anonymous_chance_actions: false,
             one_chance_name: false,
             chance_base: 1,
+            spell: false,
         }
     }
 }
@@ -249,6 +273,39 @@ struct EfgW<'a> {
     /// outcomes referred to by number only so far; their payoffs are still to be written at a
     /// later node (definition after use)
     pending: Vec<(u64, i128, i128)>,
+}
+
+/// another .efg spelling of the same number of thousandths (the choice depends on the value only)
+fn spell_efg(m: i128) -> String {
+    let sign = if m < 0 { "-" } else { "" };
+    let a = m.unsigned_abs();
+    if a > 1u128 << 100 {
+        return dec(m);
+    }
+    match a % 8 {
+        0 => format!("{m}e-3"),
+        1 => format!("{m}/1000"),
+        2 if m >= 0 => format!("+{}", dec(m)),
+        3 if a % 1000 == 0 => format!("{sign}{}.", a / 1000),
+        3 if a < 1000 => format!("{sign}.{}", format!("{:03}", a).trim_end_matches('0')),
+        4 => format!("{}E+0", dec(m)),
+        5 => format!("{sign}000{}.{:03}", a / 1000, a % 1000),
+        6 => format!("{}/{}", dec(m * 3), "3.0"),
+        _ => dec(m),
+    }
+}
+
+/// another spelling of a probability string written by `prob_strings`
+fn spell_prob(p: &str, k: usize) -> String {
+    match (p.split_once('/'), k % 4) {
+        (Some((n, d)), 0) => format!("{n}.0/{d}"),
+        (Some((n, d)), 1) => format!("+{n}e0/{d}"),
+        (Some((n, d)), 2) => format!("{n}/{d}.00"),
+        (None, 0) if p.starts_with("0.") => p[1..].to_string(),
+        (None, 1) => format!("+{p}"),
+        (None, 2) if p.contains('.') => format!("{p}0e0"),
+        _ => p.to_string(),
+    }
 }
 
 fn is_2_5_smooth(mut n: u64) -> bool {
@@ -308,6 +365,10 @@ fn prob_strings(weights: &[f64], decimal: bool) -> Vec<String> {
 
 impl EfgW<'_> {
     fn payoffs(&self, a: i128, b: i128) -> String {
+        if self.st.spell {
+            let sep = if self.st.commas { ", " } else { " " };
+            return format!("{{ {}{sep}{} }}", spell_efg(a), spell_efg(b));
+        }
         if self.st.commas {
             format!("{{ {}, {} }}", dec(a), dec(b))
         } else {
@@ -374,6 +435,7 @@ impl EfgW<'_> {
                 // chance actions may all carry the same (empty) name — names are labels; only done
                 // where the probabilities are pairwise distinct, so that the node is unambiguous
                 let distinct = (0..probs.len()).all(|a| (0..a).all(|b| probs[a] != probs[b]));
+                let probs: Vec<String> = if self.st.spell { probs.iter().enumerate().map(|(k, p)| spell_prob(p, k + weights.len())).collect() } else { probs };
                 let anon_outs = self.st.anonymous_chance_actions && distinct;
                 let list: Vec<String> = order.iter().map(|i| format!("\"{}\" {}", if anon_outs { String::new() } else { esc(&outs[*i].0) }, probs[*i])).collect();
                 let (oc, add) = self.interior();
